@@ -69,6 +69,12 @@ type hostGen struct {
 	maxDepth int
 }
 
+// hostBigSize: sizes around typical fast-path thresholds
+func hostBigSize(r *rand.Rand) int {
+	base := []int{8, 16, 32, 64, 65, 100, 128, 256}[r.Intn(8)]
+	return base - 1 + r.Intn(3)
+}
+
 func (h *hostGen) prim() *hostShape {
 	switch h.r.Intn(5) {
 	case 0:
@@ -125,6 +131,9 @@ func (h *hostGen) shape(d int) *hostShape {
 		in := h.shape(d - 1)
 		isArr := h.r.Intn(4) == 0
 		n := h.r.Intn(4)
+		if h.r.Intn(8) == 0 {
+			n = hostBigSize(h.r)
+		}
 		gt := reflect.SliceOf(in.GoT)
 		if isArr {
 			gt = reflect.ArrayOf(n, in.GoT)
@@ -140,10 +149,27 @@ func (h *hostGen) shape(d int) *hostShape {
 				out = reflect.New(gt).Elem()
 			} else {
 				k = r.Intn(4)
+				if r.Intn(8) == 0 {
+					k = hostBigSize(r)
+				}
 				out = reflect.MakeSlice(gt, k, k)
 			}
 			ev := &ref.V{}
 			var elT *ref.Ty
+			if k > 4 && r.Intn(2) == 0 {
+				// a large collection of one repeated element, whose untagged
+				// nil-able parts may be nil (uniformly, so the types agree)
+				v, e := in.Gen(r, full)
+				if e == nil {
+					return out, nil
+				}
+				for i := 0; i < k; i++ {
+					out.Index(i).Set(v)
+					ev.L = append(ev.L, e)
+				}
+				ev.T = ref.TList(e.T)
+				return out, ev
+			}
 			for i := 0; i < k; i++ {
 				v, e := in.Gen(r, true) // elements must agree in type
 				out.Index(i).Set(v)
@@ -173,7 +199,11 @@ func (h *hostGen) shape(d int) *hostShape {
 			out := reflect.MakeMap(gt)
 			ev := &ref.V{}
 			var vT *ref.Ty
-			for i := r.Intn(4); i > 0; i-- {
+			cnt := r.Intn(4)
+			if r.Intn(10) == 0 {
+				cnt = hostBigSize(r) // (distinct keys permitting)
+			}
+			for i := cnt; i > 0; i-- {
 				kv, ke := ks.Gen(r, true)
 				vv, ve := in.Gen(r, true)
 				if ve == nil {
